@@ -1,7 +1,7 @@
 (** * C06 — an entraited trait is implemented for [::entrait::Impl<T>] by forwarding to the application (trait mode, no delegation target) *)
 From Coq Require Import List String Ascii Bool.
 From Entrait Require Import Tok Syn Opts Split FnParams Convert Codegen Expand Proj Proj2 Proj3 Examples.
-From Entrait.Proofs Require Import Base Shapes NonVac PC06.
+From Entrait.Proofs Require Import Base Shapes NonVac PC06 Sem Sem2.
 Import ListNotations.
 Local Open Scope list_scope.
 
@@ -62,6 +62,19 @@ Theorem c06_impl_block_header : forall a h t,
   i_trait (c06_impl a h t) = Some ([TId (t_name t)] ++ trait_args (t_gen t)).
 Proof. exact c06_impl_header. Qed.
 Print Assumptions c06_impl_block_header.
+
+(** What a forwarding method does (mini-semantics of Proofs/Sem.v, Sem2.v): evaluating its body with the
+    method's parameters bound positionally to the caller's arguments performs exactly one call — of method
+    [m] on what [self.as_ref()] ([.as_ref()] / [.borrow()]) reaches, or of [<T::Target as I<T>>::m] with the
+    caller's [&Impl<T>] first — passing the caller's arguments 0..n-1 in declared order, awaited iff async.
+    (Hypotheses: the user's parameter names are distinct and none is [self] — rustc rejects anything else.) *)
+Theorem c06_forwarding_semantics : forall a ca s ev,
+  NoDup (typed_names s) -> ~ In "self"%string (typed_names s) ->
+  c06_expected_event a s = Some ev ->
+  eval_provider_call (typed_names s)
+    [TG Brace (c06_call a ca s ++ (if s_async s then [pc "."; TId "await"] else []))] = Some ev.
+Proof. exact eval_c06_call. Qed.
+Print Assumptions c06_forwarding_semantics.
 
 (** The predicate the checker evaluates on the implementation's output holds of every model expansion. *)
 Theorem c06_view_sound : forall v attr i items,
